@@ -9,6 +9,7 @@ import (
 	"go/types"
 	"os"
 	"path/filepath"
+	"reflect"
 	"sort"
 	"strings"
 
@@ -68,6 +69,9 @@ type World struct {
 	// Overlay: the file contents this world was loaded with in place of the
 	// files on disk (source normalisation passes build on each other)
 	Overlay map[string][]byte
+	// parseVerdicts: per package, the parser rules' verdict and the package
+	// (original or inlined) it was obtained on
+	parseVerdicts map[string]*parseVerdict
 }
 
 var pkgKeys = []string{"20", "30", "31", "40"}
@@ -283,6 +287,10 @@ func (p *Pkg) method(name string) *ast.FuncDecl { return p.Funcs[p.TName()+"."+n
 
 func (p *Pkg) pos(n ast.Node) string {
 	if n == nil {
+		return p.Key
+	}
+	// a nil *ast.X handed over as an ast.Node (a model part that has no syntax)
+	if rv := reflect.ValueOf(n); rv.Kind() == reflect.Ptr && rv.IsNil() {
 		return p.Key
 	}
 	return p.posAt(n.Pos())
